@@ -721,13 +721,37 @@ fn new_msg_view(m: &[u8], und_at: i64) -> Value {
     }
 }
 
+/// The routes without a message around the octets, both codecs together:
+/// n and sk are what both say (or both verdicts if they differ), q and rn
+/// the new codec's, ro the established one's.
+pub fn plain_view(m: &[u8], probes: &[(usize, usize)], mask: &Mask) -> Value {
+    let pold = observe(|| old_plain(m, probes, mask));
+    let pnew = observe(|| new_plain(m, probes, mask));
+    let (po, pn) = match (pold.as_array(), pnew.as_array()) {
+        (Some(a), Some(b)) if a.len() == b.len() => (a, b),
+        _ => return json!({"old": pold, "new": pnew}),
+    };
+    let both = |a: &Value, b: &Value| if a == b { a.clone() } else { json!({"old": a, "new": b}) };
+    Value::Array(
+        po.iter()
+            .zip(pn.iter())
+            .map(|(o, n)| {
+                if o.get("panic").is_some() || n.get("panic").is_some() {
+                    return json!({"old": o, "new": n});
+                }
+                json!({"n": both(&o["n"], &n["n"]), "sk": both(&o["sk"], &n["sk"]),
+                       "q": n["q"], "rn": n["rn"], "ro": o["ro"]})
+            })
+            .collect(),
+    )
+}
+
 pub fn codec_view(m: &[u8], starts: &[usize], probes: &[(usize, usize)], mask: &Mask) -> Value {
     let old = observe(|| old_view(m, starts, mask));
     let new = observe(|| new_view(m, starts, mask));
     let old2 = observe(|| old_view(m, starts, mask));
     let new2 = observe(|| new_view(m, starts, mask));
-    let pold = observe(|| old_plain(m, probes, mask));
-    let pnew = observe(|| new_plain(m, probes, mask));
+    let plain = plain_view(m, probes, mask);
     let nonidem = old2 != old || new2 != new;
     let agree = old == new;
     // the accept / reject verdicts on RDATA the referee does not know are
@@ -738,7 +762,7 @@ pub fn codec_view(m: &[u8], starts: &[usize], probes: &[(usize, usize)], mask: &
     };
     let (old, oacc) = strip(old);
     let (new, nacc) = strip(new);
-    let mut o = json!({"agree": agree, "old": old, "new": new, "pold": pold, "pnew": pnew});
+    let mut o = json!({"agree": agree, "old": old, "new": new, "plain": plain});
     if oacc != nacc {
         // each differing verdict must be one of the documented disagreements
         let mut devs: Vec<String> = vec![];
